@@ -11,6 +11,10 @@
  *                                     value it is given and checks that the range lies behind the path
  *                                     inside the used data of the path buffer (vals=ok)
  *   p node                            mpt_parse_node(target, ctx, fmt)
+ *   p nparse <limits-hex|null> <log|nolog>   mpt_node_parse(target, stdio stream over the input, fmt, limits,
+ *                                     logger or NULL): replaces the children on success
+ *   p folder                          mpt_parse_folder over a directory whose only file holds the input
+ *                                     (default format, recording handler)
  *   p render <style> <decor> <forest> <hex>   (C09) the text of <forest> as written by the reference
  *                                     writer; the real code only takes <hex> as input
  *   p tree                            print the target
@@ -29,6 +33,10 @@
 #include "types.h"
 #include "convert.h"
 #include "node.h"
+#include <stdarg.h>
+#include <dirent.h>
+#include <fcntl.h>
+#include "output.h"
 #include "config.h"
 #include "array.h"
 #include "parse.h"
@@ -189,6 +197,7 @@ static int record(void *ctx, const MPT_STRUCT(path) *p, const MPT_STRUCT(value) 
 {
 	struct event *e;
 	(void) ctx; (void) last;
+	if (!curr) return 0;   /* "new file" notification of mpt_parse_folder */
 	if (fail_at >= 0 && (long) nev == fail_at) return -1;   /* refused elements are not recorded */
 	if (nev == capev) { capev = capev ? capev * 2 : 64; evs = realloc(evs, capev * sizeof(*evs)); }
 	e = &evs[nev];
@@ -307,6 +316,26 @@ static void clear_events(void)
 	nev = 0;
 }
 
+/* ------------------------------------------------------------------ logger for mpt_node_parse */
+static int log_calls;
+static int drv_log(MPT_INTERFACE(logger) *l, const char *from, int type, const char *fmt, va_list va)
+{
+	char buf[256];
+	(void) l; (void) from; (void) type;
+	/* format the message as a real logger would */
+	if (fmt) vsnprintf(buf, sizeof(buf), fmt, va);
+	++log_calls;
+	return 0;
+}
+static const MPT_INTERFACE_VPTR(logger) drv_log_vptr = { drv_log };
+static MPT_INTERFACE(logger) drv_logger = { &drv_log_vptr };
+
+/* the caller's stack holds arbitrary old data: fill the region below with non-zero bytes */
+static __attribute__((noinline)) void dirty_stack(void)
+{
+	volatile char junk[65536];
+	for (size_t i = 0; i < sizeof(junk); i++) junk[i] = (char) 0xAA;
+}
 /* ------------------------------------------------------------------ ops */
 static void setup_ctx(MPT_STRUCT(parser_context) *ctx)
 {
@@ -427,6 +456,49 @@ int main(void)
 			ob_reset(); unsound = 0; put_forest(root.children, &root, 0);
 			printf("R %s sound=%s | C %s", ret < 0 ? "err" : "ok", unsound ? unsound : "ok", ob);
 			put_internals(ret, &ctx);
+		}
+		else if (!strcmp(op, "nparse") && drv_nw == 4) {
+			uint8_t *lim = 0; size_t ll = 0; int z = 0, ret, uselog;
+			char *limits = 0;
+			FILE *f;
+			if (!strcmp(drv_w[3], "log")) uselog = 1;
+			else if (!strcmp(drv_w[3], "nolog")) uselog = 0;
+			else { puts("bad-op"); continue; }
+			if (strcmp(drv_w[2], "null")) {
+				if (drv_parse_data(drv_w[2], &lim, &ll, &z) || z || memchr(lim, 0, ll)) { puts("bad-op"); free(lim); continue; }
+				limits = malloc(ll + 1); memcpy(limits, lim, ll); limits[ll] = 0;
+				free(lim);
+			}
+			f = input_len ? fmemopen(input, input_len, "r") : fopen("/dev/null", "r");
+			if (!f) { puts("FAULT fmemopen"); exit(3); }
+			log_calls = 0;
+			ret = mpt_node_parse(&root, f, fmt_str, limits, uselog ? &drv_logger : 0);
+			fclose(f);
+			free(limits);
+			ob_reset(); unsound = 0; put_forest(root.children, &root, 0);
+			printf("R %s sound=%s | C %s | I code=%d\n", ret < 0 ? "err" : "ok", unsound ? unsound : "ok", ob, ret);
+		}
+		else if (!strcmp(op, "folder") && drv_nw == 2) {
+			/* mpt_parse_folder over a directory that holds the input as its only file */
+			char dn[] = "/tmp/drvparseXXXXXX", fn[64];
+			DIR *dir;
+			FILE *f;
+			int ret;
+			if (!mkdtemp(dn)) { puts("FAULT mkdtemp"); exit(3); }
+			snprintf(fn, sizeof(fn), "%s/a.conf", dn);
+			if (!(f = fopen(fn, "w"))) { puts("FAULT fopen"); exit(3); }
+			if (input_len) fwrite(input, 1, input_len, f);
+			fclose(f);
+			dir = opendir(dn);
+			clear_events(); vals_bad = 0; fail_at = -1;
+			dirty_stack();
+			ret = mpt_parse_folder(dir, record, 0, 0);
+			closedir(dir);
+			unlink(fn); rmdir(dn);
+			ob_reset(); put_events();
+			printf("R %s nest=%s vals=%s | C %s | I code=%d\n", ret < 0 ? "err" : "ok", ret < 0 ? "-" : nest_verdict(),
+			       vals_bad ? vals_bad : "ok", ob, ret);
+			clear_events();
 		}
 		else if (!strcmp(op, "end") && drv_nw == 2) {
 			size_t now;
